@@ -1,5 +1,5 @@
 #!/bin/bash
-# usage: confirm_mutant.sh <Cxx> <k>   -- confirms an agent-delivered mutant in its scratch worktree and stores it under /verif/seeded
+# usage: confirm_mutant.sh <Cxx> <k> [<index to store under>]   -- confirms an agent-delivered mutant in its scratch worktree and stores it under /verif/seeded
 id=$1; k=$2; wt=/tmp/wt/$id; out=/tmp/wt/${id}_out
 cd $wt || exit 9
 git checkout -q -- . ; [ -z "$(git status --short)" ] || { echo "$id-$k worktree dirty"; exit 9; }
@@ -11,7 +11,7 @@ suite=$(/venv/bin/python /tmp/vtools/run_suite.py $wt 2>/dev/null | head -1)
 git checkout -q -- .
 echo "$id-$k pristine_demo=$p mutant_demo=$m suite='$suite'"
 if [ $p -eq 0 ] && [ $m -ne 0 ] && [ "$suite" = "ran=802 failures=0 errors=0 skipped=0" ]; then
-  d=/verif/seeded/$id-$k; mkdir -p $d
+  d=/verif/seeded/$id-${3:-$k}; [ -e $d ] && { echo "$d exists"; exit 9; }; mkdir -p $d
   cp $out/patch$k.diff $d/patch.diff; cp $out/demo$k.py $d/demo.py
   /venv/bin/python - "$out/meta$k.json" "$d/meta.json" "$id" "$suite" "$p" "$m" <<'PY'
 import json,sys
